@@ -444,6 +444,17 @@ fn run_op(ctx: &mut Ctx, op: &str) -> String {
                 Err(e) => err(&e),
             }
         }
+        "CU" => {
+            // compress, then decompress the result
+            let p = unhex(f[1]);
+            match Compress::compress(&p) {
+                Ok(v) => match Compress::uncompress(&v) {
+                    Ok(u) => format!("OK:{}|{}", hex(&v), hex(&u)),
+                    Err(e) => format!("OK:{}|{}", hex(&v), err(&e)),
+                },
+                Err(e) => err(&e),
+            }
+        }
         "Y" => {
             let t = unhex(f[1]);
             match std::str::from_utf8(&t) {
